@@ -1,19 +1,71 @@
 import NasdaqModel.Lemmas.RefineInstances
 /-
-Witness for C04 at byte level (FIX only, hostile input): with a NEGATIVE BodyLength the frame `FixMessageReader.deserialize`
-cuts is `buf[:n]` with `n < 0` — counted from the end of whatever has arrived so far — so WHICH bytes form the message depends
-on TCP segmentation and on when the reader polls.  Segmentation independence of tokens, and with it "the consumer is handed a
-prefix of the decodable messages carried by the bytes received", fail without the stability hypothesis (`stable … fixSt`) of
-`Props/C04Bytes.lean`.  Reproduced against the unchanged reader (`/repo/src/nasdaq_protocols/fix/_reader.py`, test-suite
-dictionary): same two schedules, same two outcomes (see /verif/fixes/C04-fix-negative-bodylength.md).
+Witness for C04 at byte level (FIX only, hostile input) — the PRE-REPAIR reader, kept as a decided regression.
+
+Before /repo 658ee1f `FixMessageReader.deserialize` accepted a NEGATIVE BodyLength: the frame it cut was `buf[:n]` with `n < 0` —
+counted from the end of whatever had arrived so far — so WHICH bytes formed the message depended on TCP segmentation and on when
+the reader polled.  Segmentation independence of tokens, and with it "the consumer is handed a prefix of the decodable messages
+carried by the bytes received", failed.  Reproduced against the reader of /repo 8c9ad6b (test-suite dictionary): same two
+schedules, same two outcomes (/verif/fixes/C04-fix-negative-bodylength.md).  `fixDeserOld` is that reader (Model/Framing.lean
+before the repair, verbatim); the last theorems are the repaired counterpart on the same inputs.
 -/
 namespace NasdaqModel.Witness.C04Bytes
 open NasdaqModel Py Refine
-open NasdaqModel.Framing (Proto fixProtoD)
+open NasdaqModel.Framing (Proto find tag35 EQ SOH pySlice pySliceTo pySliceFrom getMsgType fixIsLogout fixIsHeartbeat fixDeser fixDeserD fixProtoD)
+
+/-- `FixMessageReader.deserialize` BEFORE the repair: no check of the sign of BodyLength -/
+def fixDeserOld (buf : Bytes) : Except Err (Option (Bytes × Bytes)) :=
+  match find buf tag35 0 with
+  | none => .ok none
+  | some _ =>
+    match find buf [EQ] 2 with
+    | none => .ok none
+    | some start =>
+      match find buf [SOH] start with
+      | none => .ok none
+      | some end_ => do
+        let n ← parseIntBytes (pySlice buf ((start : Int) + 1) end_)
+        let msgLen : Int := ((end_ : Int) + 1) + n + 7
+        if (buf.length : Int) < msgLen then pure none
+        else pure (some (pySliceTo buf msgLen, pySliceFrom buf msgLen))
+
+/-- … with the dictionary dispatch (as `Framing.fixDeserD`) -/
+def fixDeserDOld (known : Bytes → Bool) (decode : Bytes → Except Err Unit) (buf : Bytes) : Except Err (Option (Bytes × Bytes)) :=
+  match fixDeserOld buf with
+  | .error e => .error e
+  | .ok none => .ok none
+  | .ok (some (f, rest)) =>
+    if known (getMsgType f) then
+      match decode f with
+      | .ok _ => .ok (some (f, rest))
+      | .error e => .error e
+    else .error .key
+
+/-- the frame length the pre-repair reader computed, when it got that far; its stability test: that length is not negative -/
+def fixFrameLenOld (buf : Bytes) : Option Int :=
+  match find buf tag35 0 with
+  | none => none
+  | some _ =>
+    match find buf [EQ] 2 with
+    | none => none
+    | some start =>
+      match find buf [SOH] start with
+      | none => none
+      | some end_ =>
+        match parseIntBytes (pySlice buf ((start : Int) + 1) end_) with
+        | .error _ => none
+        | .ok n => some (((end_ : Int) + 1) + n + 7)
+
+def fixStOld (buf : Bytes) : Bool :=
+  match fixFrameLenOld buf with
+  | some l => decide (0 ≤ l)
+  | none => true
 
 /-- dictionary with the message types `0` (heartbeat), `5` (logout), `M`; every field-level decode succeeds -/
 def known : Bytes → Bool := fun ty => ty == [48] || ty == [53] || ty == [77]
 def decode : Bytes → Except Err Unit := fun _ => .ok ()
+/-- the pre-repair reader / the repaired reader -/
+def PDOld : Proto Bytes := ⟨fixDeserDOld known decode, fixIsLogout, fixIsHeartbeat⟩
 def PD : Proto Bytes := fixProtoD known decode
 
 /-- `8=FIX.4.4|9=-25|35=M|1=7|2=`  — BodyLength −25: computed frame length 16 − 25 + 7 = −2 -/
@@ -25,31 +77,57 @@ def m1 : Bytes := s1.take 25
 /-- `8=FIX.4.4|9=-25|35=M|1=7|2=x|` -/
 def m2 : Bytes := (s1 ++ s2).take 29
 
-theorem C04_bytes_witness_unstable : fixSt s1 = false ∧ stable PD fixSt (s1 ++ s2) = false := by decide
+theorem C04_bytes_witness_unstable : fixStOld s1 = false ∧ stable PDOld fixStOld (s1 ++ s2) = false := by decide
 
-/-- tokens are NOT independent of segmentation here: cut after `2=` the stream carries the message `…|1=7|`, whole it carries
-    `…|1=7|2=x|` -/
+/-- pre-repair: tokens are NOT independent of segmentation: cut after `2=` the stream carries the message `…|1=7|`, whole it
+    carries `…|1=7|2=x|` -/
 theorem C04_bytes_witness_tokens_depend_on_cut :
-    tokens PD s1 = ⟨[.msg m1], [50, 61], false⟩ ∧
-    (tokens PD s1).extend PD s2 = ⟨[.msg m1], [50, 61, 120, 1, 90, 90], false⟩ ∧
-    tokens PD (s1 ++ s2) = ⟨[.msg m2], [90, 90], false⟩ := by decide
+    tokens PDOld s1 = ⟨[.msg m1], [50, 61], false⟩ ∧
+    (tokens PDOld s1).extend PDOld s2 = ⟨[.msg m1], [50, 61, 120, 1, 90, 90], false⟩ ∧
+    tokens PDOld (s1 ++ s2) = ⟨[.msg m2], [90, 90], false⟩ := by decide
 
-/-- the byte-level reader (C03 machine): an early poll hands on `m1`, a late poll `m2` — same bytes, different message; and what
-    the early poll handed on is not a prefix of what all the bytes received carry -/
+/-- pre-repair, the byte-level reader (C03 machine): an early poll hands on `m1`, a late poll `m2` — same bytes, different
+    message; and what the early poll handed on is not a prefix of what all the bytes received carry -/
 theorem C04_bytes_witness_schedule_dependent :
-    (Framing.run PD [.data s1, .tick, .data s2, .tick]).out = [m1] ∧
-    (Framing.run PD [.data s1, .data s2, .tick, .tick]).out = [m2] ∧
-    carried PD (s1 ++ s2) = [m2] ∧
-    ¬ ((Framing.run PD [.data s1, .tick, .data s2, .tick]).out <+: carried PD (s1 ++ s2)) := by decide
+    (Framing.run PDOld [.data s1, .tick, .data s2, .tick]).out = [m1] ∧
+    (Framing.run PDOld [.data s1, .data s2, .tick, .tick]).out = [m2] ∧
+    carried PDOld (s1 ++ s2) = [m2] ∧
+    ¬ ((Framing.run PDOld [.data s1, .tick, .data s2, .tick]).out <+: carried PDOld (s1 ++ s2)) := by decide
 
-/-- (`9=-25|35=0|`) a poll before the next bytes arrive raises `KeyError('')` (empty message type) and stops the reader, a poll
-    after them consumes a "heartbeat" `…|35=0|10=00` and the reader stays open -/
+/-- pre-repair (`9=-25|35=0|`): a poll before the next bytes arrive raises `KeyError('')` (empty message type) and stops the
+    reader, a poll after them consumes a "heartbeat" `…|35=0|10=00` and the reader stays open -/
 def h1 : Bytes := [56,61,70,73,88,46,52,46,52,1, 57,61,45,50,53,1, 51,53,61,48,1]
 def h2 : Bytes := [49,48,61,48,48,48,1]
 theorem C04_bytes_witness_close_or_not :
+    (Framing.run PDOld [.data h1, .tick, .data h2, .tick]).stopped = true ∧
+    (Framing.run PDOld [.data h1, .tick, .data h2, .tick]).failed = some .key ∧
+    (Framing.run PDOld [.data h1, .data h2, .tick, .tick]).stopped = false ∧
+    (Framing.run PDOld [.data h1, .data h2, .tick, .tick]).buf = [48, 1] := by decide
+
+/-! ### the repaired reader (658ee1f) on the same inputs -/
+
+/-- `deserialize()` raises `ValueError` on the negative BodyLength, however much of the stream has arrived -/
+theorem C04_bytes_repaired_raises :
+    fixDeser s1 = .error .value ∧ fixDeser (s1 ++ s2) = .error .value ∧
+    fixDeser h1 = .error .value ∧ fixDeser (h1 ++ h2) = .error .value := by decide
+
+/-- one tokenisation whatever the cut: the malformed frame, reader stopped -/
+theorem C04_bytes_repaired_tokens :
+    tokens PD s1 = ⟨[.bad], s1, true⟩ ∧ (tokens PD s1).extend PD s2 = ⟨[.bad], s1 ++ s2, true⟩ ∧
+    tokens PD (s1 ++ s2) = ⟨[.bad], s1 ++ s2, true⟩ := by decide
+
+/-- both schedules of both examples end the same way: nothing handed on, the reader stopped with `ValueError`, one close signal,
+    the buffer untouched -/
+theorem C04_bytes_repaired_schedules_agree :
+    (Framing.run PD [.data s1, .tick, .data s2, .tick]).out = [] ∧
+    (Framing.run PD [.data s1, .data s2, .tick, .tick]).out = [] ∧
+    (Framing.run PD [.data s1, .tick, .data s2, .tick]).failed = some .value ∧
+    (Framing.run PD [.data s1, .data s2, .tick, .tick]).failed = some .value ∧
+    (Framing.run PD [.data s1, .tick, .data s2, .tick]).buf = s1 ++ s2 ∧
+    (Framing.run PD [.data s1, .data s2, .tick, .tick]).buf = s1 ++ s2 ∧
     (Framing.run PD [.data h1, .tick, .data h2, .tick]).stopped = true ∧
-    (Framing.run PD [.data h1, .tick, .data h2, .tick]).failed = some .key ∧
-    (Framing.run PD [.data h1, .data h2, .tick, .tick]).stopped = false ∧
-    (Framing.run PD [.data h1, .data h2, .tick, .tick]).buf = [48, 1] := by decide
+    (Framing.run PD [.data h1, .data h2, .tick, .tick]).stopped = true ∧
+    (Framing.run PD [.data h1, .tick, .data h2, .tick]).closeSignals = 1 ∧
+    (Framing.run PD [.data h1, .data h2, .tick, .tick]).closeSignals = 1 := by decide
 
 end NasdaqModel.Witness.C04Bytes
